@@ -13,7 +13,7 @@ def _strip(o):
 
 
 class GenProp(Prop):
-    budgets = {"quick": 260, "thorough": 4000}
+    budgets = {"quick": 260, "thorough": 20000}
     search_budget = {"quick": 600, "thorough": 5000}
     assumptions = ["random.shuffle is the CPython 3.12 Fisher-Yates body (executed for real on scripted randbelow draws)",
                    "build/naming callbacks are arbitrary functions; the library shapes exist verbatim on both sides"]
